@@ -66,21 +66,7 @@ func (c *Ctx) ruleOrder() {
 		c.orderIn(fn, func(call ssa.CallInstruction) bool {
 			callee := ir.Callee(call)
 			return callee != nil && c.reachesSigner(callee)
-		}, func(i ssa.Instruction) bool {
-			// mutation of the receiver: stores through it, or calls to repo
-			// methods on it that write receiver state
-			switch x := i.(type) {
-			case *ssa.Store:
-				return ir.RootOf(x.Addr) == ssa.Value(fn.Params[0])
-			case ssa.CallInstruction:
-				callee := ir.Callee(x)
-				if callee == nil || !c.P.InLib(callee) || len(x.Common().Args) == 0 {
-					return false
-				}
-				return ir.RootOf(x.Common().Args[0]) == ssa.Value(fn.Params[0]) && c.writesReceiver(callee)
-			}
-			return false
-		}, "mutation of the image object")
+		}, c.receiverMutation(fn), "mutation of the image object")
 	}
 	// (*Efivarfs).WriteSignedUpdate: WriteVar behind SignEFIVariable's success
 	if fn := c.Fn("C.order", "efivarfs.(*Efivarfs).WriteSignedUpdate"); fn != nil {
@@ -262,4 +248,36 @@ func (c *Ctx) writesReceiver(fn *ssa.Function) bool {
 		}
 	})
 	return hit
+}
+
+// receiverMutation: the instruction mutates the receiver of fn — a store through
+// it, or a call of a library method on it that writes receiver state (the
+// receiver may have been spilled to a cell because a function literal captures it).
+func (c *Ctx) receiverMutation(fn *ssa.Function) func(i ssa.Instruction) bool {
+	return func(i ssa.Instruction) bool {
+		// mutation of the receiver: stores through it, or calls to repo
+		// methods on it that write receiver state
+		switch x := i.(type) {
+		case *ssa.Store:
+			return ir.RootOf(x.Addr) == ssa.Value(fn.Params[0]) || paramRoot(loadAddr(ir.RootOf(x.Addr)), fn) == fn.Params[0] && ir.RootOf(x.Addr) != loadAddr(ir.RootOf(x.Addr))
+		case ssa.CallInstruction:
+			callee := ir.Callee(x)
+			if callee == nil || !c.P.InLib(callee) || len(x.Common().Args) == 0 {
+				return false
+			}
+			recv := x.Common().Args[0]
+			isRecv := ir.RootOf(recv) == ssa.Value(fn.Params[0])
+			if !isRecv {
+				// the receiver spilled to a cell because a function literal captures it
+				switch y := ir.RootOf(recv).(type) {
+				case *ssa.UnOp:
+					isRecv = paramRoot(y.X, fn) == fn.Params[0]
+				case *ssa.Alloc:
+					isRecv = paramRoot(y, fn) == fn.Params[0]
+				}
+			}
+			return isRecv && c.writesReceiver(callee)
+		}
+		return false
+	}
 }
